@@ -573,12 +573,10 @@ pub fn run(ctx: Ctx) -> ! {
     if ctx.replay.is_some() {
         replay(ctx, &root);
     }
-    if std::env::var("VERIF_PROBE").is_ok() {
-        probe(&root);
-    }
     let quick = ctx.quick();
-    // (full-sweep depth, strided depth, stride, edge, wall cap)
-    let (full_depth, max_depth, stride, edge, cap_s): (usize, usize, u64, u64, f64) = if quick { (0, 1, 17, 50, 52.0) } else { (1, 2, 53, 20, 1080.0) };
+    // (full-sweep depth, strided depth, stride, edge, wall cap); engine checkers up to depth 1 in both tiers
+    let (full_depth, max_depth, stride, edge, cap_s): (usize, usize, u64, u64, f64) = if quick { (0, 1, 17, 50, 52.0) } else { (1, 2, 29, 30, 1080.0) };
+    let engine_check_depth = 1usize;
     let cap_s = wall_cap_override().unwrap_or(cap_s);
 
     // ---- states
@@ -656,6 +654,7 @@ pub fn run(ctx: Ctx) -> ! {
     let capped = AtomicBool::new(false);
     let done_per_depth: Vec<AtomicU64> = (0..=max_depth).map(|_| AtomicU64::new(0)).collect();
     let absorbed_below_n = AtomicU64::new(0);
+    let boundary_bad: Mutex<Option<String>> = Mutex::new(None);
     let failed_commits = AtomicU64::new(0);
     let rejected = AtomicU64::new(0);
     par_range(&ctx, jobs.len() as u64, 16, |j, l| {
@@ -679,7 +678,7 @@ pub fn run(ctx: Ctx) -> ! {
         if k > sj.n {
             if !same {
                 // the boundary found by bisection was not the end of the hook sequence
-                l.violation("machinery:boundary", format!("{}: k={k} > N={} still differs from the un-faulted receipt", sj.op.name(), sj.n), case_json(st, sj, Mode::Fault(k)));
+                boundary_bad.lock().unwrap().get_or_insert(format!("{} after {:?}: k={k} > N={} still differs from the un-faulted receipt", sj.op.name(), st.history.iter().map(|o| o.name()).collect::<Vec<_>>(), sj.n));
             } else {
                 l.class("k-past-last-hook:identical-to-unfaulted");
             }
@@ -711,9 +710,13 @@ pub fn run(ctx: Ctx) -> ! {
         }
     });
     let capped = capped.load(Ordering::Relaxed);
+    if let Some(msg) = boundary_bad.into_inner().unwrap() {
+        // the bisection did not find the end of the hook sequence: harness trouble, never a verdict
+        mc_core::machinery_error(&format!("C02: injection boundary: {msg}"));
+    }
 
     // ---- engine's own checkers on one representative (minimal k) per distinct diff shape of every subject
-    let reps: Vec<((usize, String), u64)> = shapes.into_inner().unwrap().into_iter().collect();
+    let reps: Vec<((usize, String), u64)> = shapes.into_inner().unwrap().into_iter().filter(|((i, _), _)| states[subjects[*i].state].depth <= engine_check_depth).collect();
     let engine_checked = AtomicU64::new(0);
     let engine_skipped = AtomicU64::new(0);
     par_range(&ctx, reps.len() as u64, 1, |j, l| {
@@ -750,6 +753,7 @@ pub fn run(ctx: Ctx) -> ! {
     cov.insert("fault_points_max".into(), json!(ns.iter().max()));
     cov.insert("fault_points_total_over_subjects".into(), json!(ns.iter().sum::<u64>()));
     cov.insert("full_sweep_up_to_depth".into(), json!(full_depth));
+    cov.insert("engine_checkers_up_to_depth".into(), json!(engine_check_depth));
     cov.insert("strided_sweep_depth".into(), json!(max_depth));
     cov.insert("stride".into(), json!(stride));
     cov.insert("edge".into(), json!(edge));
@@ -822,31 +826,3 @@ fn replay(ctx: Ctx, root: &Root) -> ! {
     ctx.finish(Level::FaultEnumeration, "replay", 1, false, Map::new(), &[])
 }
 
-fn probe(root: &Root) -> ! {
-    use std::time::Instant;
-    let sim = sim_from(&root.snap);
-    let states = vec![make_state(&sim, vec![])];
-    let sj = prepare_subject(root, &states, 0, Op::Menu(Tx::TransferF)).unwrap().unwrap();
-    let st = &states[0];
-    let n = 400u64;
-    let t = Instant::now();
-    for _ in 0..n { with_sim(&st.snap, |_s| {}); }
-    println!("restore: {:?}", t.elapsed() / n as u32);
-    let t = Instant::now();
-    for k in 0..n { with_sim(&st.snap, |s| { let _ = run_mode(s, &sj, Mode::Fault(1500 + k)); }); }
-    println!("restore+exec: {:?}", t.elapsed() / n as u32);
-    let after = with_sim(&st.snap, |s| { let _ = run_mode(s, &sj, Mode::Fault(1500)); s.substate_db().clone() });
-    let t = Instant::now();
-    for _ in 0..n { let _ = db_diff(&st.db, &after); }
-    println!("db_diff: {:?}", t.elapsed() / n as u32);
-    let t = Instant::now();
-    for _ in 0..n { let _ = after == st.db; }
-    println!("db_eq: {:?}", t.elapsed() / n as u32);
-    let t = Instant::now();
-    for _ in 0..n { let _ = scan_totals(&after); }
-    println!("scan_totals: {:?}", t.elapsed() / n as u32);
-    let t = Instant::now();
-    for k in 0..n { let mut l = Local::new(); run_case(st, &sj, Mode::Fault(1500 + k), &mut l, true); }
-    println!("run_case full: {:?}", t.elapsed() / n as u32);
-    std::process::exit(0)
-}
